@@ -276,11 +276,15 @@ def harnesses(tier):
     singles = []
     for n in range(1, N + 1):
         for t in trees(n):
+            if n == 5:
+                singles.append(t)  # 14 336 plain trees of 5 nodes; the 57 344 cancel variants of that size are beyond any budget
+                continue
             for v in with_cancels(t):
                 singles.append(v)
     for kind in kinds:
         for t in singles:
-            if tier == "quick" and kind != "trampoline" and size(t) > 3:
+            # the three kinds share one Trampoline implementation: the largest trees are run on the TrampolineScheduler only
+            if kind != "trampoline" and size(t) > (3 if tier == "quick" else 4):
                 continue
             hs.append(H(kind, ((t,),), False))
         # two roots scheduled one after the other from outside
@@ -300,10 +304,22 @@ def harnesses(tier):
     return hs
 
 
+def small_pair(h):
+    return sum(size(t) for p in h.progs for t in p) <= 3
+
+
 def bounds(tier, h):
+    """(PB, TB).  A clock-tick deviation is possible at every scheduling point, so TB 1 multiplies the number of executions
+    by the (large) number of line-level points: it is kept for the small harnesses only."""
+    nodes = sum(size(t) for p in h.progs for t in p)
     if len(h.progs) == 1:
-        return (0, 0) if tier == "quick" else (0, 1)
-    return (1, 0) if tier == "quick" else (2, 1)
+        return (0, 0) if tier == "quick" else ((0, 1) if nodes <= 3 else (0, 0))
+    if tier == "quick":
+        return (1, 0)
+    # two threads, thorough: every pair with PB 1; pairs of <= 3 nodes with PB 2; pairs of 2 nodes also with one clock tick
+    if nodes <= 2:
+        return (2, 1)
+    return (2, 0) if nodes <= 3 else (1, 0)
 
 
 def shard(part, shard_i, nshards, tier, seed, deadline):
@@ -316,7 +332,7 @@ def shard(part, shard_i, nshards, tier, seed, deadline):
 
 def run(ctx):
     hs = harnesses(ctx.tier)
-    ctx.bounds = {"tree_nodes": 4 if ctx.tier == "quick" else 5, "two_threads(PB,TB)": (1, 0) if ctx.tier == "quick" else (2, 1), "harnesses": len(hs)}
+    ctx.bounds = {"tree_nodes": 4 if ctx.tier == "quick" else 5, "two_threads(PB,TB)": (1, 0) if ctx.tier == "quick" else "all pairs (1, 0); pairs of <= 3 nodes (2, 0); pairs of 2 nodes (2, 1)", "single_thread(PB,TB)": "(0, 1) up to 3 nodes, (0, 0) above", "harnesses": len(hs)}
     ctx.assumptions = ["controlled clock; Condition.wait(timeout) = blocked until notified or clock >= deadline", "preemption at sync operations and line boundaries of the trampoline files"]
     ctx.sharded(shard, nshards=min(len(hs), max(1, ctx.workers) * 8))
     ilvrun.finish_cov(ctx, ctx.total)
